@@ -31,8 +31,8 @@ func c04TZLiterals() []c04TZLit {
 	var out []c04TZLit
 	out = append(out, c04TZLit{"@2020", "date.year"}, c04TZLit{"@2020-07", "date.month"}, c04TZLit{"@2020-07-15", "date.day"}, c04TZLit{"@2020-01-01", "date.day"},
 		c04TZLit{"@2020T", "dt.year"}, c04TZLit{"@2020-07T", "dt.month"})
-	dates := []string{"2020-01-01", "2020-07-15", "2020-03-08", "2020-12-31"}
-	times := []struct{ t, class string }{{"T10", "hour"}, {"T10:45", "minute"}, {"T23:30:00", "second"}, {"T00:15:00.500", "ms"}}
+	dates := []string{"2020-01-01", "2020-07-15", "2020-03-08", "2020-12-31", "2024-11-02", "2024-04-06"}
+	times := []struct{ t, class string }{{"T10", "hour"}, {"T10:45", "minute"}, {"T23:30:00", "second"}, {"T00:15:00.500", "ms"}, {"T12:00:00.5", "frac1"}, {"T12:00:00.25", "frac2"}, {"T12:00:00.1234", "frac4"}}
 	offsets := []struct{ o, class string }{{"", "none"}, {"Z", "Z"}, {"+05:30", "off"}, {"-03:30", "off"}, {"-02:30", "off"}, {"+12:45", "off"}, {"+13:45", "off"}, {"-11:00", "off"}}
 	for _, d := range dates {
 		out = append(out, c04TZLit{"@" + d + "T", "dt.day"})
